@@ -17,7 +17,12 @@ typedef __CPROVER_bitvector[OSMT_W2] t_long; typedef unsigned __CPROVER_bitvecto
 typedef t_long t_llong; typedef t_ulong t_ullong;
 typedef double t_double; typedef float t_float;
 typedef t_int t_word; typedef t_uint t_uword; typedef t_long t_lword; typedef t_ulong t_ulword;
-typedef t_uint t_u32; typedef t_int t_i32; typedef t_ulong t_u64; typedef t_long t_i64;
+/* uint32_t / int32_t / uint64_t / int64_t *as spelled in the source* are identifier-like (PTRef, LVRef, SymRef, hashes) or
+   wider-than-word inputs; they get whole bytes (8 / 16 bits >= W / 2W).  CBMC mis-addresses ARRAYS of structs whose fields
+   are sub-byte bit-vectors when they are accessed through pointers (measured: a store through `base + 1` landed in element 2),
+   so no struct that is kept in an array may contain a sub-byte field.  word/uword/lword/ulword stay W / 2W bits. */
+typedef unsigned __CPROVER_bitvector[8] t_u32; typedef __CPROVER_bitvector[8] t_i32;
+typedef unsigned __CPROVER_bitvector[16] t_u64; typedef __CPROVER_bitvector[16] t_i64;
 typedef t_ulong t_size; typedef t_long t_ptrdiff;
 /* wide ghost types for exact specification arithmetic */
 typedef __CPROVER_bitvector[4*OSMT_W+12] t_int128; typedef unsigned __CPROVER_bitvector[4*OSMT_W+12] t_uint128;
